@@ -71,6 +71,7 @@ let table : (string * (z list -> z)) list = [
   ("edgelist", judge_edgelist);
   ("climat", judge_climat);
   ("cligraph", judge_cligraph);
+  ("leaf", judge_leaf);
 ]
 
 let () =
